@@ -43,6 +43,9 @@ def gen_cases(tier):
     def case(fam, ast, **kw):
         return (fam, X.to_text(ast, kw.get('abbrev', True), kw.get('tight', False)), ast)
 
+    # 0. every atom alone (literals and the simplest expressions as the top-level node)
+    for a in atoms:
+        yield case('atom', a)
     # 1. every single step: 13 axes x 10 node tests x 15 predicate lists, abbreviated and unabbreviated
     for st in G.steps():
         yield case('step1', path(st))
